@@ -200,7 +200,12 @@ impl Constraints {
                 from + rng.gen_range(0.0..(to - from))
             } else {
                 // Wrap-around case: generate an angle based on two segments
-                let range_length = (2.0 * PI - (from - to)).abs();
+                // The arc runs from `from` forward to the first `to + 2 * PI * k` ahead of it
+                // (same unwrapping as in compute_centers); from == to is the full circle.
+                let mut range_length = (to - from).rem_euclid(2.0 * PI);
+                if range_length == 0.0 {
+                    range_length = 2.0 * PI;
+                }
                 let segment = rng.gen_range(0.0..range_length);
 
                 // Determine which segment to take (before or after the wrap)
